@@ -171,6 +171,8 @@ pub struct World {
     pub immediate: Vec<GOut>,
     /// every inner call resolves at once with this outcome (immediate inner service)
     pub auto: Option<GOut>,
+    /// back-pressure: while set, poll_ready of every instance answers Pending (and nobody is woken)
+    pub block_ready: bool,
     pub clock0: tokio::time::Instant,
 }
 impl World {
@@ -184,6 +186,7 @@ impl World {
             ready_script: vec![],
             immediate: vec![],
             auto: None,
+            block_ready: false,
             clock0: tokio::time::Instant::now(),
         }
     }
@@ -223,6 +226,9 @@ impl tower::Service<Req> for Inner {
     type Future = GateFut;
     fn poll_ready(&mut self, cx: &mut Context<'_>) -> Poll<Result<(), IErr>> {
         let mut g = self.w.lock().unwrap();
+        if g.block_ready {
+            return Poll::Pending;
+        }
         if !g.track_inst {
             return Poll::Ready(Ok(()));
         }
